@@ -875,8 +875,8 @@ class Cache(object):
         n_from = (page-1) * limit
         n_to = page * limit
         db_txs = self.session.query(DbCacheTransaction).\
-            filter(DbCacheTransaction.block_height == height, DbCacheTransaction.index >= n_from,
-                   DbCacheTransaction.index < n_to).all()
+            filter(DbCacheTransaction.block_height == height, DbCacheTransaction.network_name == self.network.name,
+                   DbCacheTransaction.index >= n_from, DbCacheTransaction.index < n_to).all()
         txs = []
         for db_tx in db_txs:
             t = self._parse_db_transaction(db_tx)
